@@ -104,7 +104,7 @@ func runC10(c *Ctx) {
 		depth = 4
 	}
 	c.Exhaustive = true
-	c.Rule = fmt.Sprintf("all management-call histories of depth <= %d over a 24-call alphabet (p and g; single, batch, Ex, update, batch update, filtered removal, UpdateFilteredPolicies) plus SavePolicy/LoadPolicy, with the recording set-semantics adapter implementing every optional interface, under both auto-save settings, over a 9-call alphabet on a model with explicit priority as first column whose store is attached after construction (never loaded), and over an 11-call alphabet on a subject-priority model whose store is loaded out of hierarchy order (implementation only: live vs freshly loaded, rule list vs index); after every call the adapter contents and call log are compared with the Lean model and, after every successful call with auto-save on, a second real enforcer freshly loaded from the adapter must make the same decisions over the 16-request universe (checked on the implementation); the file/string adapter save/load round trip over loadable fields, also on a model with two policy and two role definitions; non-trivial = a history with a call that changed the policy and one that was refused; distinct = whole history", depth)
+	c.Rule = fmt.Sprintf("all management-call histories over a %d-call alphabet (p and g; single, batch, Ex, update incl. identity updates, batch update, filtered removal, UpdateFilteredPolicies) plus SavePolicy/LoadPolicy, with the recording set-semantics adapter implementing every optional interface: depth <= %d with auto-save on, depth <= %d with auto-save off; depth <= 3 over a 9-call alphabet on a model with explicit priority as first column whose store is attached after construction (never loaded); depth <= %d over an 11-call alphabet on a subject-priority model whose store is loaded out of hierarchy order (implementation only: live vs freshly loaded, rule list vs index); after every call the adapter contents and call log are compared with the Lean model and, after every successful call with auto-save on, a second real enforcer freshly loaded from the adapter must make the same decisions over the 16-request universe (checked on the implementation); the file/string adapter save/load round trip over loadable fields, also on a model with two policy and two role definitions; non-trivial = a history with a call that changed the policy and one that was refused; distinct = whole history", len(mgmtAlphabet()), depth, map[bool]int{false: 2, true: depth}[c.Thorough()], map[bool]int{false: 2, true: 3}[c.Thorough()])
 	for _, autosave := range []bool{true, false} {
 		autosave := autosave
 		alpha := append(mgmtAlphabet(), EOp{Kind: "save"}, EOp{Kind: "load"})
@@ -313,7 +313,7 @@ func runC10(c *Ctx) {
 
 func runC11(c *Ctx) {
 	c.Exhaustive = true
-	c.Rule = "fault enumeration: from every state reachable in <= 1 call (quick) / <= 2 calls (thorough) over the 24-call management alphabet: every management call, SavePolicy and LoadPolicy x failure of its k-th adapter call (k = 1, 2), LoadPolicy failing after k delivered lines for every k <= number of lines, reloads through the file and string adapters from a text whose (k+1)-th line the line reader itself rejects (empty type, short rule, unbalanced quote; implementation only), role-link rebuilding failing at the j-th link for every j (also on a model whose role definitions are all conditional: the j-th grouping line of the reloaded text lacks its parameters); the calls of the RBAC API and its domain variants (20 calls) x failure of their k-th adapter call for every k they make (implementation only; the four calls composed of several management calls only for k = 1: finding D40); observed: returned error, listed rules, HasLink over the universe, decisions over 16 requests, before vs after (on the implementation) and against the Lean model; non-trivial = a fault that was actually hit (the call reported an error); distinct = (prefix, call, fault)"
+	c.Rule = fmt.Sprintf("fault enumeration: from every state reachable in <= 1 call (quick) / <= 2 calls (thorough) over the %d-call management alphabet:", len(mgmtAlphabet())) + " every management call, SavePolicy and LoadPolicy x failure of its k-th adapter call (k = 1, 2), LoadPolicy failing after k delivered lines for every k <= number of lines, reloads through the file and string adapters from a text whose (k+1)-th line the line reader itself rejects (empty type, short rule, unbalanced quote; implementation only), role-link rebuilding failing at the j-th link for j = 1..5 (also on a model whose role definitions are all conditional: the j-th grouping line of the reloaded text lacks its parameters); the calls of the RBAC API and its domain variants (20 calls) x failure of their k-th adapter call for every k they make (implementation only; the four calls composed of several management calls only for k = 1: finding D40); the same first-call faults with a watcher attached (SavePolicy, LoadPolicy, two management calls x both auto-save settings: error reported, nothing announced, memory unchanged); batches rejected half-way (a missing old rule, an already listed rule) from every prefix state: whatever reports false or an error leaves rules, index, links and decisions as they were; observed: returned error, listed rules, HasLink over the universe, decisions over 16 requests, before vs after (on the implementation) and against the Lean model; non-trivial = a fault that was actually hit (the call reported an error); distinct = (prefix, call, fault)"
 	c11RbacFaults(c)
 	condRejectedReload(c)
 	c11RejectedTextReloads(c)
@@ -496,7 +496,7 @@ func runC11(c *Ctx) {
 			}
 		}
 		// role-link rebuilding failing at the j-th link during LoadPolicy
-		for j := 1; j <= 3; j++ {
+		for j := 1; j <= 5; j++ {
 			c11RoleLinkFault(c, ms, pre, j)
 		}
 	}
@@ -537,7 +537,7 @@ func runC15(c *Ctx) {
 		depth = 3
 	}
 	c.Exhaustive = true
-	c.Rule = fmt.Sprintf("all management-call histories of depth <= %d (effective and no-op calls; failing calls: every call of the alphabet from a store holding three rules with its first adapter call armed to fail, every other failure worded like a real backend's error containing the words \"not implemented\") x {Watcher, WatcherEx, UpdatableWatcher, WatcherEx+Updatable} x auto-notify on/off (and auto-save off for two watcher kinds: announcements do not depend on it; and for two kinds from a store that already holds a p and a g rule), two real enforcers sharing the recording in-memory adapter over a synchronous bus: the notification log (kind and arguments) is compared with the Lean model after every call, and on the implementation: exactly one notification per effective call, none for false/error results and Self* calls, and the peer, reloading on every notification, reaches the originator's decisions; a watcher whose notifications fail (twin enforcers: same notifications, memory and store, result (bool, error)); every rule-changing SyncedEnforcer method (Self* replays included) vs the Enforcer method it wraps on twin enforcers: same notifications, results and state; non-trivial = a history with an effective and a no-op call; distinct = (watcher kind, flags, history)", depth)
+	c.Rule = fmt.Sprintf("all management-call histories of depth <= %d (effective and no-op calls; failing calls: every call of the alphabet from a store holding three rules with its first adapter call armed to fail, every other failure worded like a real backend's error containing the words \"not implemented\") x {Watcher, WatcherEx, UpdatableWatcher, WatcherEx+Updatable} (auto-notify on at the full depth, for two kinds also from a store that already holds a p and a g rule; at depth-1: auto-notify off for every kind, and auto-save off for two kinds: announcements do not depend on it), two real enforcers sharing the recording in-memory adapter over a synchronous bus: the notification log (kind and arguments) is compared with the Lean model after every call, and on the implementation: exactly one notification per effective call, none for false/error results, and the peer, reloading on every notification, reaches the originator's decisions; a watcher whose notifications fail (twin enforcers: same notifications, memory and store, result (bool, error)); every rule-changing SyncedEnforcer method (Self* replays included) vs the Enforcer method it wraps on twin enforcers: same notifications, results and state, and no notification at all from a Self* call; non-trivial = a history with an effective and a no-op call; distinct = (watcher kind, flags, history)", depth)
 	type c15Variant struct {
 		wk               string
 		notify, autosave bool
